@@ -1054,6 +1054,9 @@ impl Space for TreeSpace {
             let after_raw = if need_raw { self.raw_snaps(&b) } else { vec![] };
             e.transitions += 1;
             let (vs, next_model, diverged) = self.check_step(&b, op, &out, &log, &before, &before_raw, &after, &after_raw, model, &deep_before);
+            // a state invariant (C03, C05) broken by this transition is reported here; the broken
+            // state is not expanded (what happens in it is a consequence of the reported defect)
+            let diverged = diverged || ((self.mon.wellformed || self.mon.consistency) && !vs.is_empty());
             for (sig, summary, extra) in vs {
                 *e.vio_counts.entry(sig.clone()).or_insert(0) += 1;
                 if self.want_full(&sig) {
